@@ -1165,7 +1165,7 @@ class FactorAnalysisBase(BaseEstimator):
         tmp_CD = np.repeat(n_acc_i, self.feature_dimension)
 
         fn_y_i = f_acc_i.flatten() - tmp_CD * (
-            m - D * latent_z_i
+            m + D * latent_z_i
         )  # Fn_yi = sum_{sessions h}(N_{i,h}*(o_{i,h} - m - D*z_{i})
 
         # Looping over the sessions of a ;ane;
